@@ -761,6 +761,13 @@ def atGray (m : WMat) (x y : Nat) : Res Nat := do
   let b ← m.get x y
   pure (if b then 0 else 255)
 
+/-- one cell of `ParseBoolMapToBitMatrix`: `if imageI[j] { bits.Set(j, i) }` -/
+def ofBoolMapCell (m : WMat) (imageI : List Bool) (i j : Nat) : Res WMat :=
+  match imageI[j]? with
+  | none => .error (.panic "index out of range")
+  | some true => m.set j i
+  | some false => pure m
+
 /-- `ParseBoolMapToBitMatrix`; a row shorter than the first one is an index panic -/
 def ofBoolMap (image : List (List Bool)) : Res WMat :=
   let height := image.length
@@ -768,12 +775,8 @@ def ofBoolMap (image : List (List Bool)) : Res WMat :=
   match WMat.new width height with
   | .error e => .error e
   | .ok m0 =>
-    (image.zipIdx).foldlM (fun m (imageI, i) =>
-      (List.range width).foldlM (fun m j =>
-        match imageI[j]? with
-        | none => .error (.panic "index out of range")
-        | some true => m.set j i
-        | some false => pure m) m) m0
+    (image.zipIdx).foldlM (fun m p =>
+      (List.range width).foldlM (fun m j => ofBoolMapCell m p.1 p.2 j) m) m0
 
 /-- `ParseStringToBitMatrix` -/
 def parse (s set unset : List Nat) : Res WMat :=
@@ -783,8 +786,8 @@ def parse (s set unset : List Nat) : Res WMat :=
     match WMat.new rowLength nRows with
     | .error e => .error e
     | .ok m0 =>
-      (bits.zipIdx).foldlM (fun m (b, i) =>
-        if b then m.set (i % rowLength) (i / rowLength) else pure m) m0
+      (bits.zipIdx).foldlM (fun m p =>
+        if p.1 then m.set (p.2 % rowLength) (p.2 / rowLength) else pure m) m0
 
 end WMat
 
